@@ -17,3 +17,14 @@ pub use core::*;
 pub use names::*;
 pub use package::*;
 pub use targets::*;
+
+/// Verification hooks: thin public wrappers around crate-private functions so that
+/// counterexamples found on the MIR can be replayed natively. Compiled only with
+/// `--cfg wac_verif`.
+#[cfg(wac_verif)]
+pub mod verif {
+    /// Calls the crate-private `names::alternate_lookup_key`.
+    pub fn alternate_lookup_key(name: &str) -> Option<(&str, semver::Version)> {
+        crate::names::alternate_lookup_key(name)
+    }
+}
